@@ -126,7 +126,7 @@ def run(tier):
         n = 30 if tier_ == "quick" else 300
         dist = Counter()
         for strategy in svc.STRATS:
-            for i in range(n + (n // 3 if strategy in SHARED_STRATS else 0)):
+            for i in range(n + (n if strategy in SHARED_STRATS else 0)):
                 case = svc.gen(rng, strategy, shared=(i >= n))
                 viol, st = check_case(case)
                 for k, c in st.items():
